@@ -114,6 +114,16 @@ def _adv():
         a = s.wire('a', c['aw']); b = s.wire('b', c['bw']); r = s.wire('r', c['rw'])
         return A.SignedMul(s, 'm', a, b, r), {'a': a, 'b': b}, {'r': r}
     D['SignedMul'] = (smul, [dict(aw=4, bw=4, rw=8), dict(aw=3, bw=5, rw=8), dict(aw=4, bw=4, rw=12)])
+    # n-ary gates with operands of different widths (emitted as ONE assign over all operands, built in the simulator as a ladder of
+    # two-input gates): narrow operand first / in the middle / last
+    def nary(cls):
+        def mk(s, c):
+            ins = [s.wire('i%d' % k, w) for k, w in enumerate(c['ws'])]; r = s.wire('r', c['rw'])
+            return cls(s, 'g', ins, r), {'i%d' % k: w for k, w in enumerate(ins)}, {'r': r}
+        return mk
+    mixed = [dict(ws=(1, 8, 8), rw=8), dict(ws=(8, 1, 8), rw=8), dict(ws=(8, 8, 1), rw=8), dict(ws=(2, 4, 8, 8), rw=8), dict(ws=(4, 4, 4), rw=8), dict(ws=(8, 8, 8), rw=4)]
+    for nm in ('Or', 'And', 'Nor', 'Xor'):
+        if hasattr(B, nm): D[nm + 'MixedWidths'] = (nary(getattr(B, nm)), mixed)
     return D
 
 
